@@ -150,7 +150,7 @@ fn seq_strategy() -> BoxedStrategy<String> {
     ]
     .boxed();
     // payload length mostly short, on a logarithmic scale up to 700
-    let plen = prop_oneof![12 => (0usize..8).boxed(), 1 => gen::log_count(700)];
+    let plen = prop_oneof![120 => (0usize..8).boxed(), 10 => gen::log_count(700), 1 => gen::log_count(70_000)];
     let osc = (plen.prop_flat_map(move |n| prop::collection::vec(payload_ch.clone(), n..=n)), any::<bool>()).prop_map(|(p, bel)| {
         let mut s = String::from("\x1b]");
         s.extend(p);
